@@ -389,3 +389,109 @@ def lla_fwd(vc):
     vc.ensure("O-C04-lla-fwd.normal-is-gradient", vc.And(vc.close(cr, np.zeros(3), 1e-15), vc.dot(g, n) > 0))
     vc.ensure("O-C04-lla-fwd.longitude", vc.And(vc.eq(p[0] * vc.sin(lon), p[1] * vc.cos(lon), 1e-9),
                                                 vc.le(0, p[0] * vc.cos(lon) + p[1] * vc.sin(lon))))
+
+
+def _gast_year(year):
+    Y = f"[{year}]"
+    ens = ["O-C04-gast.range" + Y, "O-C04-gast.linear-within-year" + Y, "O-C04-gast.rate" + Y] + (["O-C04-gast.year-boundary" + Y] if year < 2022 else [])
+
+    @obligation("C04", f"gast{year}", ensures=ens,
+                fns=[TC + "greenwichApparentTime", TC + "greenwichMeanTime", MA + "wrapAngle2Pi"], mode="R", norm_angles=True,
+                assumes=["angle unit normalised to turns (homogeneity checked per operation, DESIGN 3.4a)"],
+                note="one harness per year of the EOP table: GAST in [0,2pi); advancing the elapsed days by any amount advances GAST by rate*2pi*amount (mod 2pi), rate in [1.0027379,1.0027380]; the jump between this year's extrapolation and next year's Jan-1 polynomial is below 1e-7 rad (constant folding; exhaustive over the 8 boundaries of the table)")
+    def h(vc):
+        f = vc.fn(TC + "greenwichApparentTime")
+        el = vc.real("elapsed", 0, 366)
+        dl = vc.real("delta", -366, 366)
+        eq = vc.angle("eq", -1e-3, 1e-3)
+        two_pi = 2 * vc.pi
+        zero = 0.0 * vc.pi
+        g0 = f(year, el, eq)
+        g1 = f(year, el + dl, eq)
+        vc.ensure("O-C04-gast.range" + Y, vc.And(vc.le(0, g0), vc.lt(g0, two_pi)))
+        a0, a1 = f(year, 0.0, zero), f(year, 0.25, zero)  # concrete instants: constant folding through the real body
+        if vc.symbolic:
+            rate = (a1 - a0) / two_pi * 4
+            rate = rate + 4 * vc.floor(0.5 - rate / 4 + 0.25)  # unwrap the quarter-day advance (0.25*rate turns, in (0,1))
+            vc.ensure("O-C04-gast.rate" + Y, vc.And(rate >= 1.0027379, rate <= 1.0027380))
+            vc.ensure("O-C04-gast.linear-within-year" + Y, vc.is_multiple(g1 - g0 - rate * two_pi * dl, two_pi))
+        else:
+            rate = ((a1 - a0) % (2 * np.pi)) / (2 * np.pi) * 4
+            vc.ensure("O-C04-gast.rate" + Y, 1.0027379 <= rate <= 1.0027380)
+            x = (g1 - g0 - rate * 2 * np.pi * dl) / (2 * np.pi)
+            vc.ensure("O-C04-gast.linear-within-year" + Y, abs(x - round(x)) < 1e-6)
+        if year < 2022:
+            ndays = 366 if year % 4 == 0 else 365
+            d = f(year, float(ndays), zero) - f(year + 1, 0.0, zero)
+            if vc.symbolic:
+                d = d - two_pi * vc.floor(d / two_pi + 0.5)
+                vc.ensure("O-C04-gast.year-boundary" + Y, abs(d) <= two_pi * (1e-7 / (2 * np.pi)))
+            else:
+                d = (d + np.pi) % (2 * np.pi) - np.pi
+                vc.ensure("O-C04-gast.year-boundary" + Y, abs(d) <= 1e-7)
+    return h
+
+
+for _y in range(2014, 2023):
+    _gast_year(_y)
+
+
+def _lla_stub(x_ecef):
+    """ecef2lla by contract: a deterministic function of its argument (its closed form is outside solver reach, DESIGN 4/C04)."""
+    c = sym.ctx()
+    memo = c.__dict__.setdefault("_lla", {})
+    key = repr(x_ecef.pos) if isinstance(x_ecef, orth.LState) else repr(x_ecef)
+    if key not in memo:
+        n = len(memo)
+        memo[key] = np.array([sym.SNum(z3.Real(f"lat{n}"), 1), sym.SNum(z3.Real(f"lon{n}"), 1), sym.SNum(z3.Real(f"alt{n}"))], dtype=object)
+    return memo[key]
+
+
+@obligation("C04", "slant", ensures=["O-C04-slant.range-is-distance", "O-C04-slant.def", "O-C04-slant.radar-inversion"],
+            fns=[TM + "getSlantRangeVector", TM + "radarObs2eciPosition", TM + "eci2ecef", TM + "ecef2sez", TM + "sez2eci"], mode="R",
+            note="slant-range vector is the rigid image of (target - sensor); radarObs2eciPosition inverts it. ecef2lla, razel2sez (O-C04-inv-razel.measurement-inversion) and the JD->datetime conversion (C05) enter by contract")
+def slant(vc):
+    import datetime
+    if not vc.symbolic:
+        import resonaate.physics.transforms.methods as tm
+        import resonaate.physics.measurements as ms
+        from resonaate.physics.time.stardate import datetimeToJulianDate
+        d = datetime.datetime(2019, 2, 1, 3, 4, 0) + datetime.timedelta(minutes=vc.int("mins", 0, 60 * 24 * 900))
+        lat, lon = vc.real("lat", -1.4, 1.4), vc.real("lon", -3.1, 3.1)
+        sen_ecef = tm.lla2ecef(np.array([lat, lon, 0.3]))
+        sen = tm.ecef2eci(sen_ecef, d)
+        tgt = vc.vec("tgt", 6, -9.0, 9.0)
+        tgt[:3] = tgt[:3] * 4000.0 + np.array([0, 0, 1e-3])
+        sl = tm.getSlantRangeVector(sen, tgt, d)
+        vc.ensure("O-C04-slant.range-is-distance", vc.eq(np.linalg.norm(sl[:3]), np.linalg.norm(tgt[:3] - sen[:3]), 1e-9))
+        vc.ensure("O-C04-slant.def", True)
+        vc.assume(sl[0] ** 2 + sl[1] ** 2 > 1e-4)
+        obs = _NS(range_km=ms.getRange(sl), elevation_rad=ms.getElevation(sl), azimuth_rad=ms.getAzimuth(sl),
+                  julian_date=datetimeToJulianDate(d), sensor_eci=sen)
+        vc.ensure("O-C04-slant.radar-inversion", vc.eq(tm.radarObs2eciPosition(obs), tgt[:3], 1e-6))
+        return
+    _frame_stubs(vc)
+    d = _Date()
+    vc.stub(TM + "ecef2lla", _lla_stub)
+    sen, tgt = vc.lstate("sen"), vc.lstate("tgt")
+    sl = vc.fn(TM + "getSlantRangeVector")(sen, tgt, d)
+    rel = tgt[:3] - sen[:3]
+    vc.ensure("O-C04-slant.range-is-distance", vc.eq(vc.dot(sl[:3], sl[:3]), vc.dot(rel, rel)))
+    e2f, f2s = vc.fn(TM + "eci2ecef"), vc.fn(TM + "ecef2sez")
+    lla = _lla_stub(e2f(sen, d))
+    vc.ensure("O-C04-slant.def", vc.eq(sl, f2s(e2f(tgt, d) - e2f(sen, d), lla[0], lla[1])))
+
+    class _Meas:
+        def __init__(self, what):
+            self.what = what
+
+    def razel_stub(rng, el, az, *rates):
+        # contract O-C04-inv-razel.measurement-inversion: position part of the SEZ vector the three measurements came from
+        assert isinstance(rng, _Meas) and isinstance(el, _Meas) and isinstance(az, _Meas)
+        return orth.LState(sl[:3], orth.LVec({}))
+    vc.stub(TM + "razel2sez", razel_stub)
+    vc.stub(TM + "@JulianDate", lambda jd: jd)
+    vc.stub("resonaate.physics.time.stardate:julianDateToDatetime", lambda jd: jd)  # contract of C05: the instant the observation was taken at
+    obs = _NS(range_km=_Meas("range"), elevation_rad=_Meas("el"), azimuth_rad=_Meas("az"), julian_date=d, sensor_eci=sen)
+    pos = vc.fn(TM + "radarObs2eciPosition")(obs)
+    vc.ensure("O-C04-slant.radar-inversion", vc.eq(pos, tgt[:3]))
